@@ -9,6 +9,8 @@
  *     R:<pfn>                            kdump_read of 8 bytes at pfn << page_shift in
  *                                        KDUMP_MACHPHYSADDR with file.zero_excluded = 0
  *                                        -> "ok" | "nodata" | "!<status>"
+ *     an op prefixed with 'C' (e.g. CMg:0:f:0) is run on a clone of the context
+ *     (kdump_clone, created at the first such op)
  * The page-map ops are run first, then all reads, then the page-map ops again (history
  * independence).  Output:
  *   "E <answers in op order> H=same"   or   "... H=diff:<first op whose second answer differs>"
@@ -24,9 +26,24 @@
 
 static char *answers[2][MAXOPS];
 
-static char *bmp_op(kdump_ctx_t *ctx, kdump_bmp_t *fbmp, kdump_bmp_t *mbmp, const char *op)
+struct maps { kdump_ctx_t *ctx; kdump_bmp_t *fbmp, *mbmp; int have_m; };
+
+/* memory.pagemap is fetched at the first memory query: its lazy construction then happens
+ * first, in the middle or last in the history, as the case orders its ops */
+static kdump_bmp_t *mem_bmp(struct maps *m)
 {
-	kdump_bmp_t *bmp = op[0] == 'F' ? fbmp : mbmp;
+	kdump_attr_t attr;
+	if (!m->have_m) {
+		m->have_m = 1;
+		if (kdump_get_attr(m->ctx, KDUMP_ATTR_MEMORY_PAGEMAP, &attr) == KDUMP_OK)
+			m->mbmp = attr.val.bitmap;
+	}
+	return m->mbmp;
+}
+
+static char *bmp_op1(struct maps *m, const char *op)
+{
+	kdump_bmp_t *bmp = op[0] == 'F' ? m->fbmp : mem_bmp(m);
 	char *fld[4], *copy = strdup(op + 1), *save = NULL, *p, *res = malloc(MAXANS);
 	int nf = 0;
 	kdump_status st;
@@ -70,15 +87,33 @@ static char *bmp_op(kdump_ctx_t *ctx, kdump_bmp_t *fbmp, kdump_bmp_t *mbmp, cons
 	return res;
 }
 
+static struct maps clone_maps;
+
+static char *bmp_op(struct maps *m, const char *op)
+{
+	if (op[0] == 'C') {
+		kdump_attr_t attr;
+		if (!clone_maps.ctx) {
+			clone_maps.ctx = kdump_clone(m->ctx, 0);
+			if (!clone_maps.ctx)
+				return strdup("!clone");
+			if (kdump_get_attr(clone_maps.ctx, KDUMP_ATTR_FILE_PAGEMAP, &attr) == KDUMP_OK)
+				clone_maps.fbmp = attr.val.bitmap;
+		}
+		return bmp_op1(&clone_maps, op + 1);
+	}
+	return bmp_op1(m, op);
+}
+
 static void run_case(char *line)
 {
+	struct maps maps;
 	char *at = strstr(line, " @ "), *bar, *save = NULL, *p;
 	char *ops[MAXOPS];
 	int fds[16], nfds = 0, nops = 0, i, pass, diff = -1;
 	kdump_ctx_t *ctx;
 	kdump_status st;
 	kdump_attr_t attr;
-	kdump_bmp_t *fbmp = NULL, *mbmp = NULL;
 	unsigned shift;
 
 	if (!at || !(bar = strchr(at, '|'))) { printf("BAD-CASE\n"); return; }
@@ -105,15 +140,16 @@ static void run_case(char *line)
 		goto out_ctx;
 	}
 	shift = attr.val.number;
+	memset(&maps, 0, sizeof maps);
+	memset(&clone_maps, 0, sizeof clone_maps);
+	maps.ctx = ctx;
 	if (kdump_get_attr(ctx, KDUMP_ATTR_FILE_PAGEMAP, &attr) == KDUMP_OK)
-		fbmp = attr.val.bitmap;
-	if (kdump_get_attr(ctx, KDUMP_ATTR_MEMORY_PAGEMAP, &attr) == KDUMP_OK)
-		mbmp = attr.val.bitmap;
+		maps.fbmp = attr.val.bitmap;
 
 	for (pass = 0; pass < 2; ++pass) {
 		for (i = 0; i < nops; ++i)
-			if (ops[i][0] == 'F' || ops[i][0] == 'M')
-				answers[pass][i] = bmp_op(ctx, fbmp, mbmp, ops[i]);
+			if (ops[i][0] == 'F' || ops[i][0] == 'M' || ops[i][0] == 'C')
+				answers[pass][i] = bmp_op(&maps, ops[i]);
 		if (pass == 0)
 			for (i = 0; i < nops; ++i)
 				if (ops[i][0] == 'R') {
@@ -143,6 +179,8 @@ static void run_case(char *line)
 		free(answers[0][i]);
 		free(answers[1][i]);
 	}
+	if (clone_maps.ctx)
+		kdump_free(clone_maps.ctx);
  out_ctx:
 	kdump_free(ctx);
  out_fds:
